@@ -120,6 +120,36 @@ def alias_intact(iterator_name):
     xnew4, _ = it(f4, 1.0, np.zeros(1), upd)
     want4 = ((1 + h) ** 4 - 1) / 4 if iterator_name == "rk4" else h
     out["step_workbuf_t"] = bool(np.allclose(xnew4, want4, rtol=1e-13, atol=0))
+    # (4) the same right-hand sides through DESolver's own wrappers with the default (identity, non-copying) flatten functions:
+    #     one step from (x, t0) with proposed step h
+    st = SolverType.RK4 if iterator_name == "rk4" else SolverType.EXPLICITEULER
+
+    def one_step(f, x0, t0=0.0):
+        s = DESolver(st, defaultDT=h)
+        s.setdXdtFunctions(f, s.correctdXdtNotImplemented, s.defaultDtFunc, s.flattenXNotImplemented, s.unflattenXNotImplemented)
+        s._dtmin, s._dtmax = h * 2.0 ** -20, h
+        s._X0 = x0
+        xn, dt = s.iterator(s._getdXdt, t0, x0, s._updateX)
+        return xn, dt
+    x5 = np.array([1.0, 2.0])
+    xn5, _ = one_step(lambda t, X: X, x5)
+    out["solver_state"] = bool(np.array_equal(x5, keep))
+    out["solver_step_alias"] = bool(np.allclose(xn5, exact, rtol=1e-13, atol=0))
+    rate = np.array([1.0, 1.0])
+    xa, xb_ = np.zeros(2), None
+    xn6, _ = one_step(lambda t, X: rate, xa)
+    xn7, _ = one_step(lambda t, X: rate, np.array(xn6))            # a second step with the same stored rate array
+    out["solver_stored"] = bool(np.array_equal(rate, bkeep))
+    out["solver_step_stored"] = bool(np.allclose(xn6, h * bkeep, rtol=1e-13, atol=0) and np.allclose(xn7, 2 * h * bkeep, rtol=1e-13, atol=0))
+    table = {}
+
+    def f8(t, X):                        # memoised time-dependent rate (as a temperature schedule would produce): x' = t^3
+        if t not in table:
+            table[t] = np.array([t ** 3])
+        return table[t]
+    xn8, _ = one_step(f8, np.zeros(1), 1.0)
+    xn9, _ = one_step(f8, np.zeros(1), 1.0)                       # the same step again with the memo filled
+    out["solver_step_memo"] = bool(np.allclose(xn8, want4, rtol=1e-13, atol=0) and np.allclose(xn9, want4, rtol=1e-13, atol=0))
     return out
 
 
